@@ -9,6 +9,8 @@ from t2 import sets
 def run(tier, seed):
     rep = Report("C03", tier, seed, "translation_validation", "./vf check C03 --tier " + tier)
     progs = sets.quick_programs(seed) if tier == "quick" else sets.thorough_programs(seed)
+    progs = sets.dedupe(progs + [p for p in sets.focused_programs(sorted(sets.BIT_KINDS), seed, partners=(), tier="quick",
+                                                                 sandwich=("u8", "inner", "a_u16_3", "d_char")) if len(p.kinds) == 3])
     specs = [("t2.cases", "make_rel", (p.to_json(),)) for p in progs]
     specs += [("contracts.compiler", "make_fallback", (i,)) for i in range(3)]
     res = run_cases(specs)
